@@ -26,13 +26,13 @@ def main():
         return ok, out
     sh("git checkout -- .", wt)
     ok = True
-    o, _ = step("demo on unchanged library", "sh _seeded/%s/run.sh" % which, True); ok &= o
+    o, _ = step("demo on unchanged library", "bash _seeded/%s/run.sh" % which, True); ok &= o
     o, _ = step("apply patch", "git apply _seeded/%s/patch.diff" % which, True); ok &= o
     o, out = step("test suite with the change", "cmake --build _build 2>&1 | tail -2 && ctest --test-dir _build -j16 2>&1 | grep -E 'tests passed|tests failed'", True); ok &= o
     ok &= "100% tests passed" in out
-    o, _ = step("demo with the change", "sh _seeded/%s/run.sh" % which, False); ok &= o
+    o, _ = step("demo with the change", "bash _seeded/%s/run.sh" % which, False); ok &= o
     sh("git checkout -- .", wt)
-    o, _ = step("demo after revert", "sh _seeded/%s/run.sh" % which, True); ok &= o
+    o, _ = step("demo after revert", "bash _seeded/%s/run.sh" % which, True); ok &= o
     rc, st = sh("git status --porcelain --untracked-files=no", wt)
     if not ok or st.strip():
         print("NOT CONFIRMED")
